@@ -135,6 +135,33 @@ fix(
     ),
 )
 
+fix(
+    "C11b",
+    "fix: join persons to the declared groups by identifier, also when a declared group has no member",
+    (
+        "openfisca_core/simulations/simulation_builder.py",
+        "        # Maps group's identifiers to a 0-based integer range, for indexing into members_roles (see PR#876)\n"
+        "        group_sorted_indices = numpy.unique(\n"
+        "            persons_group_assignment,\n"
+        "            return_inverse=True,\n"
+        "        )[1]\n"
+        "        group_population.members_entity_id = numpy.argsort(group_population.ids)[\n"
+        "            group_sorted_indices\n"
+        "        ]\n",
+        "        # Maps each person's group identifier to the position of that group among\n"
+        "        # the declared ones (see PR#876); a declared group may have no member.\n"
+        "        group_ids = numpy.asarray(group_population.ids)\n"
+        "        group_order = numpy.argsort(group_ids)\n"
+        "        group_population.members_entity_id = group_order[\n"
+        "            numpy.searchsorted(\n"
+        "                group_ids,\n"
+        "                numpy.asarray(persons_group_assignment),\n"
+        "                sorter=group_order,\n"
+        "            )\n"
+        "        ]\n",
+    ),
+)
+
 TBS = "openfisca_core/taxbenefitsystems/tax_benefit_system.py"
 fix(
     "C07",
